@@ -20,8 +20,19 @@ theorem okGS_exprS_inv (il rt : Bool) (sp : Span) (e : Expr) (h : Frag.okGS il r
           Frag.okGE (.call csp cty (.ident isp ity name g f si) args sw) = true) ∨
        (name = "throw" ∧ sw = false ∧ ∃ a, args = [a] ∧ Frag.atomE a.2 = true))) ∨
     (∃ tsp ty t ci c, e = .tryE tsp ty t ci c ∧ ty.isNull = true ∧ Frag.okGBS false false t = true ∧
-      Frag.okGBS il rt c = true) := by
+      Frag.okGBS il rt c = true) ∨
+    (∃ msp ty c arms db, e = .matchE msp ty c arms (some (.blockE db)) ∧ ty.isNull = true ∧ Frag.okGE c = true ∧
+      Frag.okGArmsS il rt arms = true ∧ Frag.okGBS il rt db = true) := by
   cases e <;> try (simp [Frag.okGS] at h; done)
+  case matchE msp ty c arms dflt =>
+    right; right; right; right; right
+    cases dflt with
+    | none => simp [Frag.okGS] at h
+    | some d =>
+      cases d <;> try (simp [Frag.okGS] at h; done)
+      rename_i db
+      simp only [Frag.okGS, Bool.and_eq_true] at h
+      exact ⟨msp, ty, c, arms, db, rfl, h.1.1.1, h.1.1.2, h.1.2, h.2⟩
   case assign asp op l r =>
     left
     cases op <;> cases l <;> try (simp [Frag.okGS] at h; done)
@@ -71,7 +82,7 @@ theorem okGS_exprS_inv (il rt : Bool) (sp : Span) (e : Expr) (h : Frag.okGS il r
         simp only [this, Bool.false_eq_true, if_false, Bool.and_eq_true, Bool.not_eq_eq_eq_not, Bool.not_true] at h
         exact ⟨hn, ht, h.1, h.2⟩
   case tryE tsp ty t ci c =>
-    right; right; right; right
+    right; right; right; right; left
     simp only [Frag.okGS, Bool.and_eq_true] at h
     exact ⟨tsp, ty, t, ci, c, rfl, h.1.1, h.1.2, h.2⟩
 
@@ -113,10 +124,98 @@ theorem Act.OK.cell {G : GCtx} {A : Act} (hA : A.OK G) (m : String) (hm : A.N m)
   have := hA.slot m hm; have := hA.lo; have := hA.hi
   omega
 
+theorem okGArmsS_lits (il rt : Bool) : ∀ (arms : List (List Expr × Expr)), Frag.okGArmsS il rt arms = true →
+    ∀ a ∈ arms, ∀ l ∈ a.1, Frag.litE l = true := by
+  intro arms
+  induction arms with
+  | nil => intro _ a ha; simp at ha
+  | cons a0 rest iha =>
+    intro hok a ha
+    obtain ⟨lits0, act0⟩ := a0
+    cases act0 <;> try (simp [Frag.okGArmsS] at hok; done)
+    simp only [Frag.okGArmsS, Bool.and_eq_true, List.all_eq_true] at hok
+    rcases List.mem_cons.mp ha with rfl | ha
+    · exact hok.1.1
+    · exact iha hok.2 a ha
+
+theorem cgArmsS_vm_mono (mod fn : String) (φ : String → Option String) (loops : List (String × String)) (sp : Span)
+    (after : String) (arms : List (List Expr × Expr)) (nms : List String) (env : CEnv) (k : String) :
+    cnt env.vm k ≤ cnt (cgArmsS mod fn φ loops sp after arms nms env).2.vm k :=
+  cgArmsS_env mod fn φ loops sp after (fun e e' => cnt e.vm k ≤ cnt e'.vm k) (fun _ => Nat.le_refl _)
+    (fun _ _ _ h1 h2 => Nat.le_trans h1 h2) (Frag.depthGArmsS arms)
+    (fun b env _ => cgBS_vm_mono mod fn φ loops b env k) arms nms env (Nat.le_refl _)
+
+theorem cgArmsS_scopes (mod fn : String) (φ : String → Option String) (loops : List (String × String)) (sp : Span)
+    (after : String) (arms : List (List Expr × Expr)) (nms : List String) (env : CEnv) :
+    (cgArmsS mod fn φ loops sp after arms nms env).2.scopes = env.scopes :=
+  cgArmsS_env mod fn φ loops sp after (fun e e' => e'.scopes = e.scopes) (fun _ => rfl)
+    (fun _ _ _ h1 h2 => h2.trans h1) (Frag.depthGArmsS arms)
+    (fun b env _ => cgBS_scopes mod fn φ loops b env) arms nms env (Nat.le_refl _)
+
+/-- Where the body of arm `i` of a `match` statement sits, and the environment it was compiled in. -/
+theorem cgArmsS_at (A : Act) (mod fn : String) (φ : String → Option String) (loops : List (String × String))
+    (sp : Span) (after : String) (il rt : Bool) :
+    ∀ (arms : List (List Expr × Expr)) (nms : List String) (env : CEnv) (ip : Nat), arms.length = nms.length →
+    Frag.okGArmsS il rt arms = true → Frag.wsGArmsS mod fn φ loops arms env = true →
+    Placed A.lab A.σ A.c ip (cgArmsS mod fn φ loops sp after arms nms env).1 →
+    ∀ (i : Nat) (a : List Expr × Expr) (nm : String), arms[i]? = some a → nms[i]? = some nm →
+      ∃ (b : Block) (envi : CEnv), a.2 = .blockE b ∧ Frag.okGBS il rt b = true ∧
+        (∀ x ∈ Frag.identsGBS b, x ∈ Frag.identsGArmsS arms) ∧
+        envi.scopes = env.scopes ∧ (∀ k, cnt env.vm k ≤ cnt envi.vm k) ∧
+        (∀ k, cnt (cgBS mod fn φ loops b envi).2.vm k ≤ cnt (cgArmsS mod fn φ loops sp after arms nms env).2.vm k) ∧
+        Frag.wsGBS mod fn φ loops b envi = true ∧
+        (∀ m ∈ codeVars (cgBS mod fn φ loops b envi).1, m ∈ codeVars (cgArmsS mod fn φ loops sp after arms nms env).1) ∧
+        A.c[A.lab nm]? = some (.drop, sp) ∧ Placed A.lab A.σ A.c (A.lab nm + 1) (cgBS mod fn φ loops b envi).1 ∧
+        A.c[A.lab nm + 1 + nI (cgBS mod fn φ loops b envi).1]? = some (.jump (A.lab after), sp) := by
+  intro arms
+  induction arms with
+  | nil => intro nms env ip _ _ _ _ i a nm hi; simp at hi
+  | cons a0 rest ih =>
+    intro nms env ip hlen hok hws hpl i a nm hi hn
+    obtain ⟨lits0, act0⟩ := a0
+    cases act0 <;> try (simp [Frag.okGArmsS] at hok; done)
+    rename_i b0
+    cases nms with
+    | nil => simp at hlen
+    | cons n0 nms' =>
+      simp only [Frag.okGArmsS, Bool.and_eq_true] at hok
+      simp only [Frag.wsGArmsS, Bool.and_eq_true] at hws
+      simp only [cgArmsS] at hpl ⊢
+      obtain ⟨h123, hplR⟩ := hpl.append
+      obtain ⟨h12, hplJ⟩ := h123.append
+      obtain ⟨hplL, hplB⟩ := h12.append
+      obtain ⟨elb, hL2⟩ := hplL.label
+      obtain ⟨idrop, _⟩ := hL2.instr (i := .drop) rfl
+      obtain ⟨ijmp, _⟩ := hplJ.instr (i := .jump after) rfl
+      have hnL : nI [((Instr.label n0 : SInstr), sp), (.drop, sp)] = 1 := rfl
+      simp only [nI_append, hnL] at hplB ijmp hplR
+      cases i with
+      | zero =>
+        simp only [List.getElem?_cons_zero, Option.some.injEq] at hi hn
+        subst hi; subst hn
+        rw [elb]
+        refine ⟨b0, env, rfl, hok.1.2, ?_, rfl, fun _ => Nat.le_refl _, ?_, hws.1, ?_, idrop, hplB,
+          by rw [← Nat.add_assoc] at ijmp; exact ijmp⟩
+        · intro x hx; simp only [Frag.identsGArmsS, List.mem_append]; exact Or.inl hx
+        · intro k; exact cgArmsS_vm_mono mod fn φ loops sp after rest nms' _ k
+        · intro m hm
+          simp only [codeVars_append, List.mem_append]
+          exact Or.inl (Or.inl (Or.inr hm))
+      | succ j =>
+        simp only [List.getElem?_cons_succ] at hi hn
+        obtain ⟨b, envi, hb, hokb, hid, hsc, hvm, hvm2, hwsb, hcv, hdr, hplb, hjmp⟩ :=
+          ih nms' (cgBS mod fn φ loops b0 env).2 _ (by simpa using hlen) hok.2 hws.2 hplR j a nm hi hn
+        refine ⟨b, envi, hb, hokb, ?_, by rw [hsc, cgBS_scopes], ?_, hvm2, hwsb, ?_, hdr, hplb, hjmp⟩
+        · intro x hx; simp only [Frag.identsGArmsS, List.mem_append]; exact Or.inr (hid x hx)
+        · intro k; exact Nat.le_trans (cgBS_vm_mono mod fn φ loops b0 env k) (hvm k)
+        · intro m hm
+          simp only [codeVars_append, List.mem_append]
+          exact Or.inr (hcv m hm)
+
 /-- `let`, assignments, `return`, `break`, `continue`, call statements, `println`, `if`;
 loops through `PGL`. -/
 theorem pgs_step (G : GCtx) (hG : G.OK) (n : Nat) (hPE : ∀ m, m ≤ n → PE G m) (hPArgsLow : ∀ m, m + 2 = n → PArgs G m)
-    (hPL : PGL G n) (hPBlow : ∀ m, m + 1 = n → PGBS G m)
+    (hPL : PGL G n) (hPBlow : ∀ m, m + 1 ≤ n → PGBS G m)
     (hTry : ∀ m, m + 1 = n → ∀ hs, PGBS (G.withH hs) m) (hPSsLow : ∀ m, m + 2 = n → PGSs G m) : PGS G (n + 1) := by
   intro A hA loops lscopes d st env spec ip stk mem hs hT hws hN hpl hd hls hrel hsp
   have hPEn := hPE n (Nat.le_refl n)
@@ -248,7 +347,8 @@ theorem pgs_step (G : GCtx) (hG : G.OK) (n : Nat) (hPE : ∀ m, m ≤ n → PE G
   case exprS sp e =>
     rcases okGS_exprS_inv _ _ sp e hs with ⟨asp, op, isp, ity, name, isFn, r, rfl, hr, hlog⟩ |
       ⟨isp, ty, cnd, t, eb, rfl, hty, hcnd, ht, heb⟩ | ⟨isp, ty, cnd, t, rfl, hty, hcnd, ht⟩ |
-      ⟨csp, cty, isp, ity, name, g, f, si, args, sw, rfl, hcall⟩ | ⟨tsp, tty, tb, ci, cb, rfl, htty, htb, hcb⟩
+      ⟨csp, cty, isp, ity, name, g, f, si, args, sw, rfl, hcall⟩ | ⟨tsp, tty, tb, ci, cb, rfl, htty, htb, hcb⟩ |
+      ⟨msp, mty, mc, arms, db, rfl, hmty, hmc, hmarms, hmdb⟩
     · -- assignments
       simp only [Frag.wsGS, Bool.and_eq_true] at hws
       obtain ⟨hname, hwr⟩ := hws
@@ -357,7 +457,7 @@ theorem pgs_step (G : GCtx) (hG : G.OK) (n : Nat) (hPE : ∀ m, m ≤ n → PE G
       match n, hPE, hPArgsLow, hPL, hPBlow, hPEn with
       | 0, _, _, _, _, _ => rw [evalExpr]; trivial
       | m + 1, hPE, _, _, hPBlow, _ =>
-      have hPB := hPBlow m rfl
+      have hPB := hPBlow m (Nat.le_refl _)
       have hPEm := hPE m (by omega)
       simp only [cgS, codeVars_append, List.mem_append] at hN hpl ⊢
       generalize hC : cgE G.mod (ρS env.scopes) A.φ cnd env.lm = C at hN hpl hwt hwe ⊢
@@ -454,7 +554,7 @@ theorem pgs_step (G : GCtx) (hG : G.OK) (n : Nat) (hPE : ∀ m, m ≤ n → PE G
       match n, hPE, hPArgsLow, hPL, hPBlow, hPEn with
       | 0, _, _, _, _, _ => rw [evalExpr]; trivial
       | m + 1, hPE, _, _, hPBlow, _ =>
-      have hPB := hPBlow m rfl
+      have hPB := hPBlow m (Nat.le_refl _)
       have hPEm := hPE m (by omega)
       simp only [cgS, codeVars_append, List.mem_append] at hN hpl ⊢
       generalize hC : cgE G.mod (ρS env.scopes) A.φ cnd env.lm = C at hN hpl hwt ⊢
@@ -837,5 +937,142 @@ theorem pgs_step (G : GCtx) (hG : G.OK) (n : Nat) (hPE : ∀ m, m ≤ n → PE G
             obtain ⟨hfr3, mem3, hrun3, hml3, hq⟩ := hCp
             refine ⟨?_, mem3, (hrunC.trans hrun3).cast (by omega), hml02.trans hml3, hq⟩
             rw [hfr3, hfr02]
+    · -- `match c { l… => { … } … _ => { … } }`
+      simp only [Frag.wsGS, Bool.and_eq_true] at hws
+      obtain ⟨⟨hwc, hwa⟩, hwd⟩ := hws
+      simp only [Frag.identsGS, List.mem_append] at hT
+      rw [evalStmt_exprS]
+      match n, hPE, hPArgsLow, hPL, hPBlow, hPEn with
+      | 0, _, _, _, _, _ => rw [evalExpr]; trivial
+      | m + 1, hPE, _, _, hPBlow, _ =>
+      have hPEm := hPE m (by omega)
+      simp only [cgS, codeVars_append, List.mem_append] at hN hpl ⊢
+      generalize hCC : cgE G.mod (ρS env.scopes) A.φ mc env.lm = CC at hN hpl hwa hwd ⊢
+      generalize hAf : freshLabel G.mod CC.2 "match_after" = aft at hN hpl hwa hwd ⊢
+      generalize hTs : armTests G.mod msp arms aft.2 = ts at hN hpl hwa hwd ⊢
+      generalize hDf : freshLabel G.mod ts.2.2 "match_default" = dfl at hN hpl hwa hwd ⊢
+      generalize hBs : cgArmsS G.mod A.src A.φ loops msp aft.1 arms ts.2.1 { env with lm := dfl.2 } = bs
+        at hN hpl hwd ⊢
+      generalize hCD : cgBS G.mod A.src A.φ loops db bs.2 = CD at hN hpl ⊢
+      obtain ⟨h6, hplE⟩ := hpl.append
+      obtain ⟨h5, hplD⟩ := h6.append
+      obtain ⟨h4, hplL⟩ := h5.append
+      obtain ⟨h3, hplB⟩ := h4.append
+      obtain ⟨h2, hplJ⟩ := h3.append
+      obtain ⟨hplC, hplT⟩ := h2.append
+      obtain ⟨ijd, _⟩ := hplJ.instr (i := .jump dfl.1) rfl
+      obtain ⟨edfl, hL2⟩ := hplL.label
+      obtain ⟨idrop, _⟩ := hL2.instr (i := .drop) rfl
+      obtain ⟨ija, hE2⟩ := hplE.instr (i := .jump aft.1) rfl
+      obtain ⟨eaft, _⟩ := hE2.label
+      have hnJ : nI [((Instr.jump dfl.1 : SInstr), msp)] = 1 := rfl
+      have hnL : nI [((Instr.label dfl.1 : SInstr), msp), (.drop, msp)] = 1 := rfl
+      have hnE : nI [((Instr.jump aft.1 : SInstr), msp), (.label aft.1, msp)] = 1 := rfl
+      simp only [nI_append, hnJ, hnL, hnE] at hplT ijd hplB edfl idrop hplD ija eaft ⊢
+      simp only [← Nat.add_assoc] at hplT ijd hplB edfl idrop hplD ija eaft ⊢
+      have hlit := okGArmsS_lits _ _ arms hmarms
+      have hscB : bs.2.scopes = env.scopes := by rw [← hBs, cgArmsS_scopes]
+      have hscD : CD.2.scopes = env.scopes := by rw [← hCD, cgBS_scopes, hscB]
+      have hvmB : ∀ k, cnt env.vm k ≤ cnt bs.2.vm k := fun k => by
+        rw [← hBs]; exact cgArmsS_vm_mono G.mod A.src A.φ loops msp aft.1 arms ts.2.1 { env with lm := dfl.2 } k
+      have hvmD : ∀ k, cnt bs.2.vm k ≤ cnt CD.2.vm k := fun k => by
+        rw [← hCD]; exact cgBS_vm_mono G.mod A.src A.φ loops db bs.2 k
+      -- the control value
+      have h1 := hPEm A hA mc spec ip stk mem env.lm env.scopes env.vm hmc hwc (fun x hx => hT x (Or.inl hx))
+        (hCC ▸ hplC) hrel.rel hsp
+      rw [hCC] at h1
+      rw [evalExpr_matchE]
+      rcases hec : evalExpr G.cfg m mc spec with ⟨r1, st1⟩
+      rw [hec] at h1
+      cases r1 with
+      | error ce' => exact SimGS.of_exprError _ hrel hls h1
+      | ok cv =>
+        obtain ⟨hfr, mem1, hrun1, hml⟩ := h1
+        simp only []
+        have hsp1 := hsp.world st1 hfr
+        have hfr' : st1 = { spec with scopes := st1.scopes, out := st1.out, heap := st1.heap } := by rw [hfr]
+        have hrel1 : GRel G A env.scopes env.vm st1.scopes mem1 := by rw [hfr]; exact hrel.memLe hml
+        have htest := armTests_run G A hA msp ⟨cv, none⟩ stk mem1 st1.world arms aft.2 (ip + nI CC.1) hlit
+          (hTs ▸ hplT)
+        rw [hTs] at htest
+        have hlen : arms.length = ts.2.1.length := by rw [← hTs, armTests_length]
+        rcases evalArms_spec G.cfg arms m cv (.blockE db) st1 hlit with h | ⟨msg, h⟩ | ⟨i, a, f', hi, hh, hf, h⟩ |
+          ⟨hh, f', hf, h⟩
+        · rw [h]; trivial
+        · rw [h]; trivial
+        · -- arm `i` is taken
+          rw [h]
+          have hh' : armsHit st1.world.heap cv arms = some (some i) := hh
+          rw [hh'] at htest
+          obtain ⟨nm, hnm, hrunT⟩ := htest
+          obtain ⟨b, envi, hab, hokb, hid, hsci, hvmi, hvmi2, hwsb, hcv, idr, hplA, ijmp⟩ :=
+            cgArmsS_at A G.mod A.src A.φ loops msp aft.1 (!loops.isEmpty) A.rt arms ts.2.1 { env with lm := dfl.2 } _ hlen
+              hmarms hwa (hBs ▸ hplB) i a nm hi hnm
+          rw [hBs] at hvmi2 hcv
+          have hdrop := Runs.of_runsTo (RunsTo.of_exec1 (fun k => reach_drop G.code G.lim
+            (baseOf G.s A.fn A.rest A.mp st1.world) (A.lab nm) k stk mem1 ⟨A.fn, 0⟩ A.rest A.c rfl hA.code msp ⟨cv, none⟩
+            idr))
+          have hpre : Runs G.code G.lim G.s A.fn A.rest A.mp ip stk mem spec.world (A.lab nm + 1) stk mem1 st1.world :=
+            (hrun1.trans hrunT).trans hdrop
+          rw [hab]
+          cases f' with
+          | zero => rw [evalExpr]; trivial
+          | succ g =>
+          rw [evalExpr_blockE]
+          have hreli : GRel G A envi.scopes envi.vm st1.scopes mem1 := by
+            rw [hsci]; exact hrel1.vm_mono hvmi
+          have hb := hPBlow g (by omega) A hA loops lscopes d b envi st1 (A.lab nm + 1) stk mem1 hokb
+            (fun x hx => hT x (Or.inr (Or.inl (hid x hx)))) hwsb
+            (fun mm hm => hN mm (Or.inl (Or.inl (Or.inl (Or.inr (hcv mm hm)))))) hplA (by rw [hsci]; exact hls)
+            hreli hsp1
+          rcases hbe : inScope (evalBlock G.cfg g b) st1 with ⟨r2, st2⟩
+          rw [hbe] at hb
+          cases r2 with
+          | error ce' => exact SimGS.error_after _ hfr' hpre (hml.mono (by omega)) hb
+          | ok u =>
+            obtain ⟨hfr2, mem2, hrunB, hml2, hrelB⟩ := hb
+            have hj := Runs.of_runsTo (RunsTo.of_exec1 (fun k => reach_jump G.code G.lim
+              (baseOf G.s A.fn A.rest A.mp st2.world) _ k stk mem2 ⟨A.fn, 0⟩ A.rest A.c rfl hA.code
+              (A.lab aft.1) msp ijmp))
+            refine ⟨by rw [hfr2, hfr], mem2, ((hpre.trans hrunB).trans hj).cast (by rw [eaft]; omega),
+              (hml.mono (by omega)).trans hml2, ?_⟩
+            have hsc2 : (cgBS G.mod A.src A.φ loops b envi).2.scopes = CD.2.scopes := by
+              rw [cgBS_scopes, hsci, hscD]
+            rw [← hsc2]
+            exact hrelB.vm_mono (fun k => Nat.le_trans (hvmi2 k) (hvmD k))
+        · -- the default
+          rw [h]
+          have hh' : armsHit st1.world.heap cv arms = some none := hh
+          rw [hh'] at htest
+          have hjd := Runs.of_runsTo (RunsTo.of_exec1 (fun k => reach_jump G.code G.lim
+            (baseOf G.s A.fn A.rest A.mp st1.world) _ k (⟨cv, none⟩ :: stk) mem1 ⟨A.fn, 0⟩ A.rest A.c rfl hA.code
+            (A.lab dfl.1) msp ijd))
+          have hdrop := Runs.of_runsTo (RunsTo.of_exec1 (fun k => reach_drop G.code G.lim
+            (baseOf G.s A.fn A.rest A.mp st1.world) (A.lab dfl.1) k stk mem1 ⟨A.fn, 0⟩ A.rest A.c rfl hA.code msp
+            ⟨cv, none⟩ (by rw [edfl]; exact idrop)))
+          have hpre : Runs G.code G.lim G.s A.fn A.rest A.mp ip stk mem spec.world
+              (ip + nI CC.1 + nI ts.1 + 1 + nI bs.1 + 1) stk mem1 st1.world :=
+            (((hrun1.trans htest).trans hjd).trans hdrop).cast (by rw [edfl])
+          cases f' with
+          | zero => rw [evalExpr]; trivial
+          | succ g =>
+          rw [evalExpr_blockE]
+          have hrelBs : GRel G A bs.2.scopes bs.2.vm st1.scopes mem1 := by
+            rw [hscB]; exact hrel1.vm_mono hvmB
+          have hb := hPBlow g (by omega) A hA loops lscopes d db bs.2 st1 (ip + nI CC.1 + nI ts.1 + 1 + nI bs.1 + 1)
+            stk mem1 hmdb (fun x hx => hT x (Or.inr (Or.inr hx))) hwd
+            (fun mm hm => hN mm (Or.inl (Or.inr (hCD ▸ hm)))) (hCD ▸ hplD) (by rw [hscB]; exact hls) hrelBs hsp1
+          rw [hCD] at hb
+          rcases hbe : inScope (evalBlock G.cfg g db) st1 with ⟨r2, st2⟩
+          rw [hbe] at hb
+          cases r2 with
+          | error ce' => exact SimGS.error_after _ hfr' hpre (hml.mono (by omega)) hb
+          | ok u =>
+            obtain ⟨hfr2, mem2, hrunB, hml2, hrelB⟩ := hb
+            have hj := Runs.of_runsTo (RunsTo.of_exec1 (fun k => reach_jump G.code G.lim
+              (baseOf G.s A.fn A.rest A.mp st2.world) _ k stk mem2 ⟨A.fn, 0⟩ A.rest A.c rfl hA.code
+              (A.lab aft.1) msp ija))
+            exact ⟨by rw [hfr2, hfr], mem2, ((hpre.trans hrunB).trans hj).cast (by rw [eaft]; omega),
+              (hml.mono (by omega)).trans hml2, hrelB⟩
 
 end HmsProofs.Sim
